@@ -7,7 +7,7 @@ use crate::model::css::{SelList, has_combinator, has_flattened_not, has_not_or_n
 use crate::model::tree::induce;
 use crate::obs::{show, split};
 use crate::tape::{Tape, fnv};
-use crate::ensure;
+use crate::{ensure, fail};
 use lol_html::html_content::Element;
 use lol_html::{ElementContentHandlers, HtmlRewriter, Selector, Settings};
 use serde_json::{Value, json};
@@ -26,6 +26,9 @@ pub struct Case {
     /// comment handlers (the lexer runs everywhere); 2: every other selector also carries text,
     /// comment and end-tag handlers (mode changes at scope boundaries)
     pub mode: u8,
+    /// number of never-matching filler registrations placed before the generated selectors
+    /// (0, or enough to push them past the 32- and 64-handler marks of the match bit sets)
+    pub pad: usize,
 }
 
 pub fn decode(tape: &[u16]) -> Case {
@@ -36,9 +39,10 @@ pub fn decode(tape: &[u16]) -> Case {
     let spec = sched_spec(&mut t);
     let odd = t.chance(1, 3);
     let mode = t.weighted(&[3, 1, 2]) as u8;
+    let pad = if t.chance(1, 8) { *t.pick(&[26usize, 27, 28, 30, 31, 32, 33, 58, 62, 63, 64, 65, 100]) } else { 0 };
     let d = doc(&mut t, &DocOpts { max_items: 16, max_depth: 6, odd_attrs: odd, multibyte: false, ..DocOpts::default() });
     let cuts = spec.resolve(d.bytes.len());
-    Case { sels, d, cuts, esi, mode }
+    Case { sels, d, cuts, esi, mode, pad }
 }
 
 pub fn run_real(strs: &[String], input: &[u8], cuts: &[usize], esi: bool) -> Result<Vec<(usize, usize)>, String> {
@@ -87,7 +91,16 @@ pub fn check_case(c: &Case, st: &mut Stats) -> PResult {
     let strs: Vec<String> = c.sels.iter().map(render).collect();
     let tree = induce(&c.d, c.esi);
     st.eval();
-    let mut got = run_real_mode(&strs, &c.d.bytes, &c.cuts, c.esi, c.mode).map_err(|e| Failure::new(format!("C04: {e}")))?;
+    // fillers never match (their type names do not occur in any generated document); indices
+    // reported for them are mis-dispatched handlers
+    let mut all: Vec<String> = (0..c.pad).map(|k| if k % 3 == 0 { format!("zfill{k}") } else if k % 3 == 1 { format!("zfill{k}[zz]") } else { format!("div > zfill{k}") }).collect();
+    all.extend(strs.iter().cloned());
+    let got_raw = run_real_mode(&all, &c.d.bytes, &c.cuts, c.esi, c.mode).map_err(|e| Failure::new(format!("C04: {e}")))?;
+    if let Some(bad) = got_raw.iter().find(|x| x.0 < c.pad) {
+        fail!("C04: the handler of never-matching filler selector #{} ({:?}) ran for the tag at offset {} ({} fillers registered before the selectors {strs:?})\n  doc={:?}", bad.0, all[bad.0], bad.1, c.pad, show(&c.d.bytes));
+    }
+    let mut got: Vec<(usize, usize)> = got_raw.into_iter().map(|x| (x.0 - c.pad, x.1)).collect();
+    st.label_if(c.pad > 0, "many_registrations");
     let n = got.len();
     got.sort();
     got.dedup();
@@ -165,7 +178,7 @@ impl Prop for C04 {
                     let d = build(&[(TK::Start, "<div id=\"a\" class=\" a \">", "div", Ns::Html, ""), (TK::End, "</div>", "div", Ns::Html, "")]);
                     for (name, op) in [("id", "^="), ("id", "$="), ("class", "~=")] {
                         let sels = one(vec![Simple::Attr { name: name.into(), op, val: "".into(), flag: None }]);
-                        check_case(&Case { sels, d: d.clone(), cuts: vec![], esi: false, mode: 0 }, st)?;
+                        check_case(&Case { sels, d: d.clone(), cuts: vec![], esi: false, mode: 0, pad: 0 }, st)?;
                     }
                     Ok(())
                 }),
@@ -177,15 +190,15 @@ impl Prop for C04 {
                 run: Box::new(|st| {
                     let d = build(&[(TK::Start, "<p id=\"a\">", "p", Ns::Html, ""), (TK::End, "</p>", "p", Ns::Html, "")]);
                     let s1 = one(vec![Simple::Not(vec![vec![Simple::Type("p".into()), Simple::Class("foo".into())]])]);
-                    check_case(&Case { sels: s1, d: d.clone(), cuts: vec![], esi: false, mode: 0 }, st)?;
+                    check_case(&Case { sels: s1, d: d.clone(), cuts: vec![], esi: false, mode: 0, pad: 0 }, st)?;
                     let s2 = one(vec![Simple::Not(vec![vec![Simple::Not(vec![vec![Simple::Id("a".into())], vec![Simple::Id("b".into())]])]])]);
-                    check_case(&Case { sels: s2, d, cuts: vec![], esi: false, mode: 0 }, st)
+                    check_case(&Case { sels: s2, d, cuts: vec![], esi: false, mode: 0, pad: 0 }, st)
                 }),
             },
         ]
     }
     fn rule(&self) -> String {
-        "case = (set of 1-6 selectors from the full supported grammar built from a shared pool of compounds, structured document incl. mis-nesting/voids/foreign islands/odd attribute syntax, schedule, handler mode [element handlers only / plus document-level text+comment handlers / every other selector also carrying text, comment and end-tag handlers]); oracle: for every selector the set of start-tag offsets its element handler fired for == R-css(selector) evaluated on R-tree (tree induced from the flat token sequence), no duplicate invocation, and one selector registered alone gives the same matches. non-trivial = some selector has a combinator/:not/:nth-*, the document has depth >= 2 and an end tag closing several elements or a stray/omitted end tag, and >= 1 expected match; distinct by hash(doc, selectors)".into()
+        "case = (set of 1-6 selectors from the full supported grammar built from a shared pool of compounds, structured document incl. mis-nesting/voids/foreign islands/odd attribute syntax, schedule, optionally 26-100 never-matching filler registrations before them [handler ids beyond one 32-bit word of the match sets], handler mode [element handlers only / plus document-level text+comment handlers / every other selector also carrying text, comment and end-tag handlers]); oracle: for every selector the set of start-tag offsets its element handler fired for == R-css(selector) evaluated on R-tree (tree induced from the flat token sequence), no duplicate invocation, and one selector registered alone gives the same matches. non-trivial = some selector has a combinator/:not/:nth-*, the document has depth >= 2 and an end tag closing several elements or a stray/omitted end tag, and >= 1 expected match; distinct by hash(doc, selectors)".into()
     }
     fn assumptions(&self) -> Vec<String> {
         vec!["attribute names avoid the `selectors` crate's legacy case-insensitive-value list so that value matching is exactly the CSS operator + flag rule".into(), "open finding C04-not-flattening: :not() with compound arguments (odd depth) / list arguments (even depth) is generated rarely and classified by signature".into()]
@@ -201,6 +214,6 @@ impl Prop for C04 {
     }
     fn describe(&self, tape: &[u16]) -> Value {
         let c = decode(tape);
-        json!({"selectors": c.sels.iter().map(render).collect::<Vec<_>>(), "doc": show(&c.d.bytes), "cuts": c.cuts, "esi": c.esi, "handler_mode": c.mode})
+        json!({"selectors": c.sels.iter().map(render).collect::<Vec<_>>(), "doc": show(&c.d.bytes), "cuts": c.cuts, "esi": c.esi, "handler_mode": c.mode, "filler_registrations_before": c.pad})
     }
 }
